@@ -716,36 +716,37 @@ theorem checkTimestamp_frame (t : Target) (ts : Int) :
 theorem singleArm_ok {a b : Int} {t : Target} {r : Res × Target × Option Noti} (cnt : Int)
     (h : r.1 ≠ .panic ∧ TInvD a b r.2.1 ∧ Grow t r.2.1 ∧ r.2.1.latest = t.latest ∧ r.2.1.name = t.name) :
     (singleArm r cnt).1 ≠ .panic ∧ TInvD a b (singleArm r cnt).2.1 ∧ Grow t (singleArm r cnt).2.1 ∧
-    (singleArm r cnt).2.1.name = t.name := by
-  obtain ⟨c1, c2, c3, _, c5⟩ := h
+    (singleArm r cnt).2.1.name = t.name ∧ (singleArm r cnt).2.1.latest = t.latest := by
+  obtain ⟨c1, c2, c3, c4, c5⟩ := h
   unfold singleArm
   split
-  · exact ⟨c1, c2, c3, c5⟩
+  · exact ⟨c1, c2, c3, c5, c4⟩
   · split
-    · exact ⟨by simp, c2.with_md _ ⟨rfl, rfl, rfl⟩, c3.with_md _, c5⟩
-    · exact ⟨by simp, c2, c3, c5⟩
+    · exact ⟨by simp, c2.with_md _ ⟨rfl, rfl, rfl⟩, c3.with_md _, c5, c4⟩
+    · exact ⟨by simp, c2, c3, c5, c4⟩
 
 /-- The switch of `Target.GnmiUpdate` never panics on a well-formed target, keeps the
 invariant, and moves the tree by "grow, then shrink". -/
 theorem dispatch_ok {a b : Int} (cfg : Cfg) (now : Int) (t : Target) (n : Noti) (hi : TInvD a b t)
     (ht : n.target ≠ "") :
     let r := t.dispatch cfg now n
-    r.1 ≠ .panic ∧ TInvD a b r.2.1 ∧ (∃ mid, Grow t mid ∧ Shrink mid r.2.1) ∧ r.2.1.name = t.name := by
+    r.1 ≠ .panic ∧ TInvD a b r.2.1 ∧ (∃ mid, Grow t mid ∧ Shrink mid r.2.1) ∧ r.2.1.name = t.name ∧
+    r.2.1.latest = t.latest := by
   intro r
   have hr : r = t.dispatch cfg now n := rfl
   unfold Target.dispatch at hr
   split at hr
   · -- atomic
     split at hr
-    · rw [hr]; exact ⟨by simp, hi, ⟨t, Grow.refl t, Shrink.refl t⟩, rfl⟩
+    · rw [hr]; exact ⟨by simp, hi, ⟨t, Grow.refl t, Shrink.refl t⟩, rfl, rfl⟩
     · split at hr
-      · rw [hr]; exact ⟨by simp, hi.with_md _ ⟨rfl, rfl, rfl⟩, ⟨t, Grow.refl t, (Shrink.refl t).with_md _⟩, rfl⟩
+      · rw [hr]; exact ⟨by simp, hi.with_md _ ⟨rfl, rfl, rfl⟩, ⟨t, Grow.refl t, (Shrink.refl t).with_md _⟩, rfl, rfl⟩
       · rename_i _ _ hne
         have hn : n.upd ≠ [] := by
           intro e; rw [e] at hne; simp at hne
-        obtain ⟨a, b, c, d⟩ := singleArm_ok (t := t) ((n.upd.length : Nat) : Int)
+        obtain ⟨a, b, c, d, e⟩ := singleArm_ok (t := t) ((n.upd.length : Nat) : Int)
           (gnmiUpdate1_consequences cfg now t n hi hn ht)
-        rw [hr]; exact ⟨a, b, ⟨_, c, Shrink.refl _⟩, d⟩
+        rw [hr]; exact ⟨a, b, ⟨_, c, Shrink.refl _⟩, d, e⟩
   · split at hr
     · -- multi
       have ha := multiUpdates_ok cfg now { n with upd := [], del := [] } ht t n.upd { t := t }
@@ -756,15 +757,15 @@ theorem dispatch_ok {a b : Int} (cfg : Cfg) (now : Int) (t : Target) (n : Noti) 
         ⟨ha.noPanic, ha.inv, Shrink.refl _, rfl, rfl⟩
       simp only [hb.noPanic, Bool.false_eq_true, if_false] at hr
       rw [hr]
-      refine ⟨?_, hb.inv, ⟨_, ha.rel, hb.rel⟩, hb.name.trans ha.name⟩
+      refine ⟨?_, hb.inv, ⟨_, ha.rel, hb.rel⟩, hb.name.trans ha.name, hb.latest.trans ha.latest⟩
       split <;> simp
     · split at hr
       · rename_i _ _ h1
         have hn : n.upd ≠ [] := by
           intro e; rw [e] at h1; simp at h1
-        obtain ⟨a, b, c, d⟩ := singleArm_ok (t := t) 1
+        obtain ⟨a, b, c, d, e⟩ := singleArm_ok (t := t) 1
           (gnmiUpdate1_consequences cfg now t n hi hn ht)
-        rw [hr]; exact ⟨a, b, ⟨_, c, Shrink.refl _⟩, d⟩
+        rw [hr]; exact ⟨a, b, ⟨_, c, Shrink.refl _⟩, d, e⟩
       · split at hr
         · rename_i _ _ _ h1
           have hd : n.del ≠ [] := by
@@ -772,11 +773,11 @@ theorem dispatch_ok {a b : Int} (cfg : Cfg) (now : Int) (t : Target) (n : Noti) 
           have hc := gnmiRemove1_consequences
             { t with md := { t.md with updated := t.md.updated + 1 } } n (hi.with_md _ ⟨rfl, rfl, rfl⟩) hd ht
           simp only at hc
-          obtain ⟨c1, c2, c3, _, c5⟩ := hc
+          obtain ⟨c1, c2, c3, c4, c5⟩ := hc
           simp only [c1, Bool.false_eq_true, if_false] at hr
           rw [hr]
-          exact ⟨by simp, c2, ⟨t, Grow.refl t, Shrink.from_md _ c3⟩, c5⟩
-        · rw [hr]; exact ⟨by simp, hi.with_md _ ⟨rfl, rfl, rfl⟩, ⟨t, Grow.refl t, (Shrink.refl t).with_md _⟩, rfl⟩
+          exact ⟨by simp, c2, ⟨t, Grow.refl t, Shrink.from_md _ c3⟩, c5, c4⟩
+        · rw [hr]; exact ⟨by simp, hi.with_md _ ⟨rfl, rfl, rfl⟩, ⟨t, Grow.refl t, (Shrink.refl t).with_md _⟩, rfl, rfl⟩
 
 theorem tracksTimestamp?_isSome (n : Noti) (ht : n.target ≠ "") : ∃ b, tracksTimestamp? n = some b := by
   unfold tracksTimestamp?
@@ -799,7 +800,7 @@ theorem gnmiUpdate_ok {a b : Int} (cfg : Cfg) (now : Int) (t : Target) (n : Noti
     r.1 ≠ .panic ∧ TInvD a b r.2.1 ∧ TsMono t r.2.1 ∧ r.2.1.name = t.name := by
   intro r
   obtain ⟨b, hb⟩ := tracksTimestamp?_isSome n ht
-  obtain ⟨d1, d2, ⟨mid, d3, d4⟩, d5⟩ := dispatch_ok cfg now t n hi ht
+  obtain ⟨d1, d2, ⟨mid, d3, d4⟩, d5, _⟩ := dispatch_ok cfg now t n hi ht
   have hr : r = ((t.dispatch cfg now n).1,
       (if (t.dispatch cfg now n).2.2.2 && b then (t.dispatch cfg now n).2.1.checkTimestamp n.ts
        else (t.dispatch cfg now n).2.1), (t.dispatch cfg now n).2.2.1) := by
